@@ -1,6 +1,7 @@
 package clnth
 
 import (
+	"encoding/json"
 	"fmt"
 	"math/rand"
 	"os"
@@ -76,7 +77,7 @@ func hangKeyFree(kind string, f *Free) string {
 // cut into arbitrary segments, Rerror and mismatched replies; Tag-interface sessions; and the
 // tag-space wrap (more than 65535 calls on one connection) with tag accounting.
 func TestStress(t *testing.T) {
-	StartWatchdog(120 * time.Second)
+	StartWatchdog(60 * time.Second)
 	seed := int64(envInt("VERIF_SEED", 1))
 	thorough := os.Getenv("VERIF_TIER") == "thorough"
 	rng := rand.New(rand.NewSource(seed))
@@ -159,7 +160,7 @@ func perms(n int) [][]int {
 // TestOrders: every reply order for 1..5 outstanding calls, each reply cut into random segments,
 // kinds drawn per request.
 func TestOrders(t *testing.T) {
-	StartWatchdog(120 * time.Second)
+	StartWatchdog(60 * time.Second)
 	seed := int64(envInt("VERIF_SEED", 1))
 	rep := &Report{Engine: "clnt-orders", Stats: map[string]any{}}
 	maxN := envInt("VERIF_MAXN", 5)
@@ -186,7 +187,7 @@ func TestOrders(t *testing.T) {
 // TestCut: C10 crash points. For sessions with 0..4 outstanding calls the reply stream is cut
 // after every byte offset (then the connection dies); calls entering after the failure.
 func TestCut(t *testing.T) {
-	StartWatchdog(120 * time.Second)
+	StartWatchdog(60 * time.Second)
 	seed := int64(envInt("VERIF_SEED", 1))
 	rep := &Report{Engine: "clnt-cut", Stats: map[string]any{}}
 	variants := envInt("VERIF_VARIANTS", 2)
@@ -225,7 +226,7 @@ func TestCut(t *testing.T) {
 // 0..n of them answered, the peer closes / sends garbage of every class / a reply to an unknown
 // tag / (optionally) an oversize frame, or the application unmounts; two calls enter afterwards.
 func TestFaults(t *testing.T) {
-	StartWatchdog(120 * time.Second)
+	StartWatchdog(60 * time.Second)
 	seed := int64(envInt("VERIF_SEED", 1))
 	rep := &Report{Engine: "clnt-faults", Stats: map[string]any{}}
 	faults := []string{"close", "unmount", "unknown"}
@@ -272,7 +273,7 @@ func TestFaults(t *testing.T) {
 // TestLateCalls: after the connection failed, more calls than there are tags must all return an
 // error (a call that does not return is a hang).
 func TestLateCalls(t *testing.T) {
-	StartWatchdog(120 * time.Second)
+	StartWatchdog(60 * time.Second)
 	seed := int64(envInt("VERIF_SEED", 1))
 	n := envInt("VERIF_N", 70000)
 	rep := &Report{Engine: "clnt-latecalls", Stats: map[string]any{}}
@@ -287,7 +288,7 @@ func TestLateCalls(t *testing.T) {
 			}
 		}
 		if f.Hang != "" {
-			rep.AddViolation("hang:many-late-calls", fmt.Sprintf("after %s, %d of %d later calls returned, then one blocked forever: %s", fault, returned-1, n, f.Hang), freeReplay(cfg))
+			rep.AddViolation("hang:many-late-calls", fmt.Sprintf("after %s, %d of %d later calls returned, then one blocked forever: %s", fault, max(returned-1, 0), n, f.Hang), freeReplay(cfg))
 		} else {
 			judgeFailure(f)
 		}
@@ -303,7 +304,7 @@ func TestLateCalls(t *testing.T) {
 // TestTagFailure: Tag-interface requests outstanding when the connection fails must complete with
 // an error. (Run in a child process: as coded the Tag's goroutine panics.)
 func TestTagFailure(t *testing.T) {
-	StartWatchdog(120 * time.Second)
+	StartWatchdog(60 * time.Second)
 	seed := int64(envInt("VERIF_SEED", 1))
 	rep := &Report{Engine: "clnt-tagfailure", Stats: map[string]any{}}
 	for _, fault := range []string{"close", "unknown", "unmount"} {
@@ -331,4 +332,26 @@ func TestOversize(t *testing.T) {
 	os.Setenv("VERIF_OVERSIZE", "1")
 	os.Setenv("VERIF_ONLY_FAULT", "oversize")
 	TestFaults(t)
+}
+
+// TestFreeReplay re-executes one free-running session from a replay file (VERIF_FREECFG).
+func TestFreeReplay(t *testing.T) {
+	var cfg FreeCfg
+	if err := json.Unmarshal([]byte(os.Getenv("VERIF_FREECFG")), &cfg); err != nil {
+		t.Skip("no VERIF_FREECFG")
+	}
+	StartWatchdog(60 * time.Second)
+	rep := &Report{Engine: "clnt-free-replay", Stats: map[string]any{}}
+	f := RunFree(t, cfg)
+	rep.Cases, rep.Distinct = 1, 1
+	if f.Hang != "" {
+		rep.AddViolation(hangKeyFree("replay", f), f.Hang, freeReplay(cfg))
+	} else if cfg.Fault != "" {
+		judgeFailure(f)
+	}
+	addFree(rep, f, "", freeReplay(cfg))
+	rep.Samples = append(rep.Samples, map[string]any{"cfg": cfg, "hang": f.Hang, "violations": len(f.Viol)})
+	if err := rep.Write(); err != nil {
+		t.Fatal(err)
+	}
 }
